@@ -217,7 +217,7 @@ pub trait Sampler: Send + Sync {
     fn dimension(&self) -> usize;
     fn image(&self) -> Tree;
     /// what a format with is_human_readable() == false would write
-    fn image_binary(&self) -> Tree;
+    fn image_binary(&self) -> Result<Tree, String>;
     fn clone_box(&self) -> Box<dyn Sampler>;
     fn to_json(&self) -> Result<String, String>;
     fn to_json_pretty(&self) -> Result<String, String>;
@@ -355,11 +355,11 @@ impl<const D: usize> Sampler for SampleGenerator<D> {
         }));
         store::to_tree(self).expect("SimStore cannot represent the sampler")
     }
-    fn image_binary(&self) -> Tree {
+    fn image_binary(&self) -> Result<Tree, String> {
         let _ = catch_unwind(AssertUnwindSafe(|| {
             let _ = self.get_dimension();
         }));
-        store::to_tree_binary(self).expect("SimStore cannot represent the sampler")
+        store::to_tree_binary(self).ok_or_else(|| "the binary (length-prefixed) SimStore variant cannot represent the sampler".to_string())
     }
     fn clone_box(&self) -> Box<dyn Sampler> {
         Box::new(self.clone())
